@@ -8,6 +8,7 @@ pub mod eng;
 pub mod store;
 pub mod plan;
 pub mod hist;
+pub mod digest;
 
 pub use runner::{CheckResult, Ctx, Fail, Obs, Tier};
 pub use val::{V, VT};
